@@ -246,8 +246,9 @@ class ASTString(ASTTemplate):
             clause_str = ""
             if clause.name is not None:
                 clause_str += f"{clause.name} : "
-            values_str = " and ".join([f'"{v}"' for v in clause.values])
-            clause_str += f'when {values_str} then "{clause.result}"'
+            values_str = " and ".join(["null" if v is None else f'"{v}"' for v in clause.values])
+            result_str = "null" if clause.result is None else f'"{clause.result}"'
+            clause_str += f"when {values_str} then {result_str}"
             clauses_strs.append(clause_str)
         if node.aggregate_clause is not None:
             clauses_strs.append(f"aggregate {node.aggregate_clause.function}")
